@@ -16,7 +16,7 @@ struct BadOp {};
 // E = k | eK (end - K) | end | (E op E)   op = + - * / > (max) < (min)
 // An expression other than k / eK is a "rich" expression: its C++ type depends on its shape (the text with
 // every integer replaced by #), so only the shapes of the menu below exist in the harness; the integers come
-// from the stream.  The first XMENU3 shapes are compiled for rank-3 views, the first XMENU2 for rank-2 views
+// from the stream.  The first XMENU3 shapes are compiled for views of rank 3..6, the first XMENU2 for rank-2 views
 // (and for `ix`), all of them for rank-1 views.
 #define XS_0 "(#-end)"
 #define XE_0(K) ((K)[0] - adept::end)                       // BinaryOpScalarLeft<Subtract>
@@ -268,7 +268,7 @@ template <class AR> inline std::string ix_op(AR&, const std::vector<std::string>
 // FAM_MIX: per position int / end-k / the four RangeIndex<B,E,int> with B,E in {int, end-k} / __   (ranks 1-2)
 // FAM_INT: int / RangeIndex<int,int,int> / __        FAM_END: end-k / RangeIndex<end-k,end-k,int> / __
 //          (an int k is passed as end-(len-1-k)); rank 6: __ in the last position only
-// FAM_XT : end-k / __ (the other arguments of a rank-3 call with a rich expression)
+// FAM_XT : end-k / __ (the other arguments of a call of rank 3..6 with a rich expression)
 enum { FAM_MIX = 0, FAM_INT = 1, FAM_END = 2, FAM_XT = 3 };
 
 typedef internal::RangeIndex<int,int,int> RII;
@@ -352,7 +352,7 @@ template <> struct Step<FAM_XT> {
     TRYX;
     const Arg& t = c.t[K];
     int len = a.dimension(K);
-    if (t.kind == 3) return NEXT(internal::AllIndex, __);
+    if (t.kind == 3) return NEXT_ALL;
     if (t.kind == 0) return NEXT(EndX, via_end(t.b, len));
     throw BadOp();
   }
@@ -399,10 +399,13 @@ VBase* slice_end(Array<6,int>& a, const Call& c);
 template <class AR, int R> struct DoSlice {
   static VBase* go(AR& a, const Call& c) { return call_any_end(c) ? slice_end(a, c) : slice_int(a, c); }
 };
-// calls with a rich expression: passive Array of rank 1-3 only; defined in drv_views_x*.cpp
+// calls with a rich expression: passive Array only; defined in drv_views_x*.cpp
 VBase* rich_slice(Array<1,int>& a, const Call& c);
 VBase* rich_slice(Array<2,int>& a, const Call& c);
 VBase* rich_slice(Array<3,int>& a, const Call& c);
+VBase* rich_slice(Array<4,int>& a, const Call& c);
+VBase* rich_slice(Array<5,int>& a, const Call& c);
+VBase* rich_slice(Array<6,int>& a, const Call& c);
 template <class AR> inline VBase* rich_slice(AR&, const Call&) { throw BadOp(); }
 VBase* rich_subset(Array<1,int>& a, const std::vector<Tok>& t, bool cf);
 VBase* rich_subset(Array<2,int>& a, const std::vector<Tok>& t, bool cf);
